@@ -123,7 +123,7 @@ def make_case(rng, cid, scheme, tier, opts=None):
     bounds_list = None
     if scheme in ("marlin", "sonic"):
         D = opts.get("D") or rng.choice([1, 2, 3, rng.randint(2, 40 if big else 16), rng.randint(2, 40 if big else 16)])
-        s = rng.randint(1, D)
+        s = opts.get("s") or rng.randint(1, D)
         sh = rng.randint(0, min(D, opts.get("sh_max", 4))) if rng.random() < 0.8 else 0
         if opts.get("sh_max") and D >= 3:
             sh = max(sh, rng.randint(2, min(D, opts["sh_max"])))
@@ -135,8 +135,8 @@ def make_case(rng, cid, scheme, tier, opts=None):
         if opts.get("known_srs", True):
             c.set("beta", rf_uniform(rng, p)).set("g", rf_uniform(rng, p)).set("gamma", rf_uniform(rng, p)).set("h", rf_uniform(rng, p))
     elif scheme == "ipa":
-        D = rng.choice([1, 3, 7, 15, 31] if big else [1, 3, 7, 15])
-        s = rng.choice([x for x in [1, 3, 7, 15, 31] if x <= D] + [rng.randint(1, D)])
+        D = opts.get("D") or rng.choice([1, 3, 7, 15, 31] if big else [1, 3, 7, 15])
+        s = opts.get("s") or rng.choice([x for x in [1, 3, 7, 15, 31] if x <= D] + [rng.randint(1, D)])
         sh = 1
         if opts.get("bounds", True) and rng.random() < 0.6:
             bounds_list = [rng.randint(1, s) for _ in range(rng.randint(1, 2))]
@@ -150,14 +150,14 @@ def make_case(rng, cid, scheme, tier, opts=None):
             s = D
         sh = rng.randint(1, 2)
     elif scheme == "hyrax":
-        num_vars = rng.choice([2, 4, 6] if big else [2, 4])
+        num_vars = opts.get("num_vars") or rng.choice([2, 4, 6] if big else [2, 4])
         D, s, sh = 1, 1, 1
     elif scheme in ("ligero_ml", "brakedown_ml"):
-        num_vars = rng.randint(1, 7 if big else 5) if scheme == "ligero_ml" else rng.randint(2, 6 if big else 5)
+        num_vars = opts.get("num_vars") or (rng.randint(1, 7 if big else 5) if scheme == "ligero_ml" else rng.randint(2, 6 if big else 5))
         D, s, sh = 1, 1, 0
     else:  # ligero_uni
         D = 1 << 10
-        s = rng.randint(1, 96 if big else 40)
+        s = opts.get("s") or rng.randint(1, 96 if big else 40)
         sh = 0
     if scheme in ("ligero_uni", "ligero_ml", "brakedown_ml") and rng.random() < 0.5:
         # parameters other than the hard-wired defaults: (security level, inverse rate, well-formedness check)
@@ -582,8 +582,59 @@ def make_domain_case(rng, cid, scheme, tier):
     return c
 
 
+def make_c19_case(rng, cid, scheme, tier, rung):
+    """one rung of the size ladder: univariate degree 2^rung (rung 1..8), 2..12 variables for the multivariate schemes"""
+    p = FIELD[scheme]
+    opts = {"n": rng.randint(1, 3), "npts": rng.randint(1, 2)}
+    if scheme in UNIVARIATE:
+        deg = 1 << rung
+        opts["s"] = deg + rng.choice([0, 0, 1, 3])
+        opts["D"] = opts["s"] + rng.choice([0, 2, 5])
+        if scheme == "ipa":
+            opts["D"] = (1 << (opts["s"]).bit_length()) - 1 if (opts["s"] + 1) & opts["s"] else opts["s"]
+    elif scheme == "pst13":
+        nv = rung
+        opts["pst_grid"] = (nv, 2 if nv > 6 else rng.randint(1, 3))
+    else:
+        nv = rung
+        if scheme == "hyrax" and nv % 2:
+            nv += 1
+        opts["num_vars"] = nv
+    c = make_case(rng, cid, scheme, tier, opts)
+    n = c.meta["n"]
+    if scheme in UNIVARIATE:
+        for i in range(n):
+            b = c.fields["bound.%d" % i][0]
+            d = deg if b == "none" else min(deg, int(b))
+            if scheme == "ligero_uni" and i > 0 and rng.random() < 0.5:
+                d = rng.randint(1, deg)           # polynomials of different sizes in one scenario
+            c.set("poly.%d" % i, [rf_uniform(rng, p) for _ in range(d)] + [rf_nz(rng, p)])
+        c.meta["polys_equal"] = []
+        c.meta["const"] = [False] * n
+        c.meta["zero"] = [False] * n
+    c.set("c19", 1)
+    c.meta["shapes"] = ["%s:rung%d" % (scheme, rung)] + [x.split(":")[1] if ":" in x else x for x in c.meta["shapes"]]
+    c.meta["model_silent_ok"] = False
+    add_history(rng, c, kinds=("single",), nops=rng.randint(1, 3))
+    c.meta["muts"] = []
+    return c
+
+
 def gen(rng, tier, profile, count, schemes=ALL):
     cases = []
+    if profile == "c19":
+        k = 0
+        while len(cases) < count:
+            scheme = schemes[k % len(schemes)]
+            if scheme in UNIVARIATE:
+                rung = rng.randint(1, 8 if tier != "quick" else 6)
+            elif scheme == "pst13":
+                rung = rng.randint(2, 12 if tier != "quick" else 6)
+            else:
+                rung = rng.randint(2, 12 if tier != "quick" else 8)
+            cases.append(make_c19_case(rng, "c19-%s-%d" % (scheme, k), scheme, tier, rung))
+            k += 1
+        return cases
     if profile == "c17domain":
         for k in range(count):
             scheme = ("marlin", "sonic", "pst13", "ipa", "hyrax")[k % 5]
